@@ -36,6 +36,15 @@ def gen(ctx):
                         for ending in ([bye], ["disc:0"], ["noop@" + R(b"421 closing") + ",X"], ["noop@" + R(b"421 closing") + ",X", "disc:0"],
                                        ["noop@X", "disc:0"], []):
                             yield line(c, [connect(), get(mode, rfc)] + ending + [connect(), get(mode, rfc), put(mode, rfc), lst(mode, rfc)] + ending + [connect(), get(mode, rfc)])
+        # a cancelled transfer (ABOR) in the middle of a session with resumption: the transfers after it must still resume
+        abor = ",".join([R(b"426 aborted"), R(b"226 abor ok")])
+        for mode in "pa":
+            for rfc in (0, 1):
+                for reqreuse in (0, 1):
+                    c = cfg_str(mode=mode, rfc=rfc, resume=1, ver=ver, reqreuse=reqreuse, prop="C18")
+                    g = "get:%s:ok:p01@%s/%s/%s" % (H(b"SECRETPATH03.bin"), setup(mode, rfc), ",".join([R(b"150 go"), "Dsend:g7.8192::c"]), abor)
+                    p = "put:STOR:%s:g8.20000:p01@%s/%s/%s" % (H(b"SECRETPATH04.bin"), setup(mode, rfc), ",".join([R(b"150 go"), "Drecv:-:c"]), abor)
+                    yield line(c, [connect(), get(mode, rfc), g, lst(mode, rfc), get(mode, rfc), p, put(mode, rfc), lst(mode, rfc), "disc:1@" + R(b"221 bye")])
         # the data peer answers with another context (no session to resume, certificate of an unknown CA): with verify=peer the
         # data connection must be refused exactly as the control connection would refuse it; with verify=none it is accepted
         for resume in (1, 0):
@@ -47,7 +56,7 @@ def gen(ctx):
                         yield line(c, [connect(), "put:STOR:%s:g3.5000@%s/%s" % (H(b"SECRETPATH04.bin"), setup(mode, rfc), ",".join([R(b"150 go"), R(b"226 done"), "Drecv:-:cb"])), "disc:0", connect(), lst(mode, rfc)])
         # verification settings are those of the control connection: an untrusted certificate fails on both or on neither
         yield line(cfg_str(ver=ver, verify="none", prop="C18"), [connect(bad_cert=True), get("p", 1), put("p", 1)])
-    ctx["scopes"].append("TLS 1.2/1.3 x resumption on/off x four methods x server requires reuse on/off, 2-6 (thorough 5-20) consecutive transfers, then reconnect and transfer again; sessions ended by QUIT / non-graceful disconnect / 421 with and without disconnect / server drop / connect while connected, each followed by transfers on the new session; contexts with an application verify callback (no resumption first in every harness process, then with resumption); data peer answering with a certificate of another CA x verify peer / none x resumption on / off x four methods")
+    ctx["scopes"].append("TLS 1.2/1.3 x resumption on/off x four methods x server requires reuse on/off, 2-6 (thorough 5-20) consecutive transfers, then reconnect and transfer again; sessions ended by QUIT / non-graceful disconnect / 421 with and without disconnect / server drop / connect while connected, each followed by transfers on the new session; cancelled transfers (ABOR) followed by further transfers on the same session; contexts with an application verify callback (no resumption first in every harness process, then with resumption); data peer answering with a certificate of another CA x verify peer / none x resumption on / off x four methods")
 
 PROP = {
     "id": "C18",
